@@ -1,9 +1,75 @@
 import Drx.Drv.Util
+import Drx.Snd
+import Drx.SndSpec
 namespace Drx.Drv.Snd
-open Drx Drx.Drv
+open Drx Drx.Drv Drx.Snd Drx.SndSpec
 
-/-- commands of the `snd` family (stub: nothing implemented yet) -/
+/-- split into blocks of `k` bytes (a short last block makes the spec invalid, on purpose) -/
+def chunksOf (k : Nat) (l : Bytes) : List Bytes :=
+  if h : k = 0 ∨ l = [] then [] else
+  l.take k :: chunksOf k (l.drop k)
+termination_by l.length
+decreasing_by
+  have : l ≠ [] := fun e => h (Or.inr e)
+  have : 0 < l.length := List.length_pos_iff.mpr this
+  simp only [List.length_drop]; omega
+
+def parseHeader (s : String) : Option Header :=
+  match s.splitOn ":" with
+  | ["s"] => some .standard
+  | ["e", c, f, b, aiff, ptrs, fut] => do
+    let c ← parseNat c; let f ← parseNat f; let b ← parseNat b
+    let aiff ← bytesOfHex aiff; let ptrs ← bytesOfHex ptrs; let fut ← bytesOfHex fut
+    some (.extended c f b aiff ptrs fut)
+  | _ => none
+
+/-- `<fmt> <dtsHex|refHex> <nullsHex> <soundCmd> <param1Hex> <rate> <fracHex> <loopsHex> <hdr> <samplesHex> <trailingHex>` -/
+def parseSpec : List String → Option Snd
+  | [fmt, a, nulls, sc, p1, rate, frac, loops, hdr, samples, trailing] => do
+    let a ← bytesOfHex a
+    let format ← if fmt = "1" then some (Format.fmt1 (chunksOf 6 a)) else if fmt = "2" then some (Format.fmt2 a) else none
+    let nulls ← bytesOfHex nulls
+    let p1 ← bytesOfHex p1; let rate ← parseNat rate; let frac ← bytesOfHex frac; let loops ← bytesOfHex loops
+    let hdr ← parseHeader hdr
+    let samples ← bytesOfHex samples; let trailing ← bytesOfHex trailing
+    some ⟨format, chunksOf 6 nulls, sc = "1", p1, rate, frac, loops, hdr, samples, trailing⟩
+  | _ => none
+
+def WavRead.toJ : WavParams × Bytes → J
+  | (p, d) => .obj [("ch", J.nat p.channels), ("width", J.nat p.width), ("rate", J.nat p.rate), ("frames", J.hex d)]
+
+/-- the observable of `snd2wav.main`: data.json fields, the WAV file, and what `wave` reads back from it -/
+def wavObs (b : Bytes) : J :=
+  match sndToSampled b with
+  | .error _ => J.s "error"
+  | .ok s =>
+    let js := J.arr [.int s.bits, .int s.rate, .int s.channels]
+    match sampledToWav s with
+    | .error _ => .obj [("json", js), ("wav", J.s "error"), ("read", J.s "error")]
+    | .ok w => .obj [("json", js), ("wav", J.hex w), ("read", J.ofR WavRead.toJ (wavRead w))]
+
+/-- commands of the `snd` family (see harness/c07.py) -/
 def run : List String → Option String
+  | ["decode", h] => do
+    let b ← bytesOfHex h
+    some (rJ Sampled.toJ (sndToSampled b))
+  | "enc" :: spec => do
+    let s ← parseSpec spec
+    some (J.obj [("hex", J.hex (encode s)), ("valid", .bool (decide (Valid s))),
+                 ("expected", (expected s).toJ)]).render
+  | ["wav", h] => do
+    let b ← bytesOfHex h
+    some (wavObs b).render
+  | ["alloc", h] => do
+    let b ← bytesOfHex h
+    let (a, n) := sndAlloc b
+    some (if a ≤ 2 * b.length * n then "true" else "false")
+  | ["wavwrite", ch, width, rate, h] => do
+    let ch ← parseNat ch; let width ← parseNat width; let rate ← parseNat rate; let b ← bytesOfHex h
+    some (rJ J.hex (wavWrite ⟨ch, width, rate⟩ b))
+  | ["wavread", h] => do
+    let b ← bytesOfHex h
+    some (rJ WavRead.toJ (wavRead b))
   | _ => none
 
 end Drx.Drv.Snd
